@@ -1234,6 +1234,27 @@ def _iter_count(eng, st, args, ci):
     return [(s, 'ret', bv_const(len(items), 'usize')) for (s, items) in drain(eng, st, args[0])]
 
 
+@intrinsic(r'^<' + _ITER_TYS + r'<.*> as (std::iter::)?Iterator>::(max|min)$', 'Iterator::{max,min} over integer items (fold of the drained items)', prio=1)
+def _iter_max(eng, st, args, ci):
+    is_max = ci.func.endswith('::max')
+    res = []
+    for (s, items) in drain(eng, st, args[0]):
+        if not items:
+            res.append((s, 'ret', NONE))
+            continue
+        vals = [_as_bv(_deref_arg(eng, s, x)) for x in items]
+        acc = vals[0]
+        for v in vals[1:]:
+            # max returns the last of several maxima, min the first: irrelevant for integers
+            if is_max:
+                c = (v.e >= acc.e) if acc.signed else z3.UGE(v.e, acc.e)
+            else:
+                c = (v.e < acc.e) if acc.signed else z3.ULT(v.e, acc.e)
+            acc = BV(z3.If(c, v.e, acc.e), acc.ty)
+        res.append((s, 'ret', some(acc)))
+    return res
+
+
 @intrinsic(r'^<(std::vec::)?Vec<.*> as (std::iter::)?FromIterator<.*>>::from_iter::<', 'Vec::from_iter', prio=1)
 def _vec_from_iter(eng, st, args, ci):
     return [(s, 'ret', Seq(items)) for (s, items) in drain(eng, st, args[0])]
